@@ -344,7 +344,7 @@ func (e *engine) lemmaObl(lm *lemmaDef) (o *obligation, err error) {
 		}
 	}()
 	c := newSMT(e.w)
-	st := &state{heap: map[string]string{}, locals: map[string]string{}, alloc: c.declConst("A!0", "Int")}
+	st := &state{heap: map[string]string{}, locals: map[string]string{}, base: map[string]heapBase{}, alloc: c.declConst("A!0", "Int")}
 	tr := &trans{c: c, pkg: lm.Pkg, vars: map[string]tvar{}, cur: st, old: st, depth: 2}
 	body := lm.Expr
 	// a top-level universal quantifier is skolemised (we refute the negation), so that spec applications
